@@ -14,7 +14,8 @@ RULE = ("cases: every tensor op and nn op/layer/loss of the catalogues x {float3
         "Oracle: dtype/shape predicates on the result, on every leaf gradient, on the root gradient and on the "
         "retained interior gradient; float32 result agrees with the float64 result to 1e-4*max(1,|.|max).  "
         "non-trivial: result is 0-d, or operands broadcast / have different shapes, or g.dtype != result.dtype, "
-        "or a Python-scalar operand, or the retained-interior form; distinct by hash of the case")
+        "or a Python-scalar operand, or the retained-interior form; distinct by hash of the case"
+        " Also: mixed operand dtypes for the gradient rule, backward re-rooted on leaves, BatchNorm train->eval histories (buffer dtypes), tensors of 4,000-70,000 elements.")
 ASSUMPTIONS = ["operands of one call share a dtype (mixed-dtype operands are not part of the statement)",
                "reference shapes come from the NumPy reference models of the catalogues"]
 
